@@ -916,9 +916,11 @@ func prettyVal(v ssa.Value, depth int) string {
 // objects).
 func (a *lockAnalysis) variantsOf(f *ssa.Function) []variant {
 	var pred *ssa.BinOp
+	var cands []*ssa.BinOp
+	defer func() { _ = cands }()
 	eachInstr(f, func(in ssa.Instruction) {
 		b, ok := in.(*ssa.BinOp)
-		if !ok || pred != nil || (b.Op != token.EQL && b.Op != token.NEQ) {
+		if !ok || (b.Op != token.EQL && b.Op != token.NEQ) {
 			return
 		}
 		if isNilConst(b.X) || isNilConst(b.Y) {
@@ -934,8 +936,32 @@ func (a *lockAnalysis) variantsOf(f *ssa.Function) []variant {
 		if len(mutexFieldsOf(nx)) == 0 {
 			return
 		}
-		pred = b
+		cands = append(cands, b)
 	})
+	// the comparison that matters is the one that decides whether a lock is taken (`if a != b { b.mu.Lock() }`);
+	// a comparison that only decides a return (same node under two names) is not a locking decision
+	for _, b := range cands {
+		for _, u := range referrersOf(b) {
+			iff, ok := u.(*ssa.If)
+			if !ok || pred != nil {
+				continue
+			}
+			kx, ky := objKeyOf(b.X).s, objKeyOf(b.Y).s
+			for _, sb := range iff.Block().Succs {
+				for _, in := range sb.Instrs {
+					for _, op := range a.opsOf(in) {
+						// the lock taken in the branch is the lock of one of the two objects compared
+						if op.key.s == kx || op.key.s == ky {
+							pred = b
+						}
+					}
+				}
+			}
+		}
+	}
+	if pred == nil && len(cands) > 0 {
+		pred = cands[0]
+	}
 	if pred == nil {
 		return []variant{{}}
 	}
